@@ -199,6 +199,70 @@ type lbFinding struct {
 	what string
 }
 
+// lockSummary: the mutexes a function acquires, itself or through statically resolved callees (depth 3), named relative to
+// its parameters ("P0.mu", "P1.clientMux(r)"). Only keys rooted at a parameter can be related to a caller's state.
+var lockSummaries = map[*ssa.Function]map[string]bool{}
+
+func paramRel(fn *ssa.Function, key string) (string, bool) {
+	root := key
+	rest := ""
+	if i := strings.Index(key, "."); i >= 0 {
+		root, rest = key[:i], key[i:]
+	}
+	for i, p := range fn.Params {
+		if p.Name() == root {
+			return fmt.Sprintf("P%d%s", i, rest), true
+		}
+	}
+	return "", false
+}
+
+func lockSummary(fn *ssa.Function, depth int) map[string]bool {
+	if s, ok := lockSummaries[fn]; ok {
+		return s
+	}
+	out := map[string]bool{}
+	lockSummaries[fn] = out
+	if fn == nil || len(fn.Blocks) == 0 || depth > 3 {
+		return out
+	}
+	forEachInstr(fn, false, func(_ *ssa.Function, in ssa.Instruction) {
+		call, ok := in.(*ssa.Call)
+		if !ok {
+			return
+		}
+		if d, key := mutexOp(call.Common()); d > 0 {
+			if rel, ok := paramRel(fn, key); ok {
+				out[rel] = true
+			}
+			return
+		}
+		callee := call.Common().StaticCallee()
+		if callee == nil || len(callee.Blocks) == 0 || callee.Pkg != fn.Pkg {
+			return
+		}
+		for k := range lockSummary(callee, depth+1) {
+			// k = "P<i>.rest" in the callee: translate through the argument
+			var idx int
+			var rest string
+			if _, err := fmt.Sscanf(k, "P%d", &idx); err != nil || idx >= len(call.Common().Args) {
+				continue
+			}
+			if j := strings.Index(k, "."); j >= 0 {
+				rest = k[j:]
+			}
+			a := accessPath(call.Common().Args[idx], 0)
+			if a == "" {
+				continue
+			}
+			if rel, ok := paramRel(fn, a+rest); ok {
+				out[rel] = true
+			}
+		}
+	})
+	return out
+}
+
 // lockBalance explores the CFG of fn with the multiset of held mutexes as state.
 func lockBalance(fn *ssa.Function) []lbFinding {
 	has := false
@@ -282,6 +346,32 @@ func lockBalance(fn *ssa.Function) []lbFinding {
 			case *ssa.Call:
 				d, key := mutexOp(x.Common())
 				if d == 0 {
+					// a synchronous call into a function of the package that acquires a mutex the caller holds: sync mutexes
+					// are not reentrant, the goroutine blocks on itself with the lock held
+					if callee := x.Common().StaticCallee(); callee != nil && len(callee.Blocks) > 0 && callee.Pkg == fn.Pkg {
+						for k := range lockSummary(callee, 0) {
+							var idx int
+							rest := ""
+							if _, err := fmt.Sscanf(k, "P%d", &idx); err != nil || idx >= len(x.Common().Args) {
+								continue
+							}
+							if j := strings.Index(k, "."); j >= 0 {
+								rest = k[j:]
+							}
+							a := accessPath(x.Common().Args[idx], 0)
+							if a == "" {
+								continue
+							}
+							full := a + rest
+							base := strings.TrimSuffix(full, "(r)")
+							if held[base] > 0 || held[base+"(r)"] > 0 {
+								if !reported["re|"+full+callee.Name()] {
+									reported["re|"+full+callee.Name()] = true
+									out = append(out, lbFinding{fn, x.Pos(), base, "acquired again inside " + callee.Name() + "() while this function holds it (sync mutexes are not reentrant: self-deadlock)"})
+								}
+							}
+						}
+					}
 					continue
 				}
 				held[key] += d
